@@ -204,19 +204,28 @@ func (fs LocalFileSystem) Create(ctx context.Context, name string, body io.ReadC
 		}
 	}
 	tmp := wc.Name()
+	tmpInfo, _ := wc.Stat()
 	defer wc.Close()
+
+	// The temporary file lives in the served directory, where other requests
+	// can replace it: when giving up, only remove what this upload created
+	removeTmp := func() {
+		if cur, err := os.Lstat(tmp); err == nil && tmpInfo != nil && os.SameFile(cur, tmpInfo) {
+			os.Remove(tmp)
+		}
+	}
 
 	if _, err := io.Copy(wc, body); err != nil {
 		wc.Close()
-		os.Remove(tmp)
+		removeTmp()
 		return nil, false, errFromOS(err)
 	}
 	if err := wc.Close(); err != nil {
-		os.Remove(tmp)
+		removeTmp()
 		return nil, false, errFromOS(err)
 	}
 	if err := os.Rename(tmp, p); err != nil {
-		os.Remove(tmp)
+		removeTmp()
 		return nil, false, errFromOS(err)
 	}
 
